@@ -53,8 +53,9 @@ def sat_encode(coefs, b, dec):
     return sm
 
 
-def history(seed):
-    """arbitrary other operations on unrelated designs of comparable scale (within a factor 1000)"""
+def history(seed, first=None):
+    """arbitrary other operations on unrelated designs of comparable scale (within a factor 1000); `first` = (operation, scale) forces the
+    first operation: who defines the class-wide tolerances, and at which end of the admissible scales, is covered systematically"""
     from frame.netlist.netlist import Netlist
     from frame.die.die import Die
     from frame.allocation.allocation import Allocation, create_initial_allocation
@@ -64,8 +65,10 @@ def history(seed):
     from tools.rect.satmanager import SATManager
     rng = random.Random(seed)
     for step in range(rng.randint(2, 6)):
-        op = rng.choice(["netlist", "die", "alloc", "stog", "sat", "legal", "strop", "badnet"])
+        op = rng.choice(["netlist", "die", "alloc", "stog", "sat", "legal", "strop", "badnet", "diefirst", "allocfirst", "terminals"])
         sc = 10 ** rng.uniform(-3, 3)
+        if step == 0 and first:
+            op, sc = first
         try:
             with contextlib.redirect_stdout(io.StringIO()):
                 if op == "netlist":
@@ -79,6 +82,13 @@ def history(seed):
                     n = Netlist(write_yaml(netlist_doc(sc, 3, 2)))
                     d = Die(f"{20 * sc}x{14 * sc}", n)
                     d.split_refinable_regions(2.0, rng.randint(2, 6))
+                elif op == "terminals":     # a design without any extent: pads only (nothing to derive a tolerance from)
+                    Netlist(write_yaml({"Modules": {"T1": {"terminal": True, "center": [1 * sc, 1 * sc]}, "T2": {"terminal": True, "center": [3 * sc, 1 * sc]},
+                                                    "T3": {"terminal": True, "fixed": True, "center": [2 * sc, 4 * sc]}}, "Nets": [["T1", "T2"], ["T2", "T3", 2]]}))
+                elif op == "diefirst":      # a die (or an allocation document) without a netlist: the other two places that define the tolerances
+                    Die(write_yaml({"width": 20 * sc, "height": 14 * sc, "regions": [[2 * sc, 12 * sc, 4 * sc, 4 * sc, "#"]]})).split_refinable_regions(2.0, 3)
+                elif op == "allocfirst":
+                    Allocation(write_yaml([[[1 * sc, 1 * sc, 2 * sc, 2 * sc], {"A": 0.5}], [[3 * sc, 1 * sc, 2 * sc, 2 * sc], {"B": 0.25}]])).refine(0.9, 1)
                 elif op == "alloc":
                     n = Netlist(write_yaml(netlist_doc(sc, 2, 0)))
                     d = Die(f"{20 * sc}x{14 * sc}", n)
@@ -195,6 +205,37 @@ def probe(name, scale):
                 except AssertionError:
                     verdicts.append("rejected")
             out["verdicts"] = verdicts
+        elif name == "decimal":
+            # designs given with plain decimal numbers: sides that coincide in exact arithmetic differ by binary rounding (an ulp or two), which
+            # is what the relative tolerance exists to absorb -- whatever comparable design defined it first (added after seed C20-12: a die that
+            # defines the tolerance first made it 1e-11 times too small).  Coordinates stay below 2, so the noise (< 5e-16) is below the smallest
+            # tolerance a design within a factor 1000 can induce (1e-15).
+            from fractions import Fraction as Fr
+            res = []
+            for (tx, ty, tw, th), (bx, by, bw, bh) in [(("1.0", "1.1", "1.8", "0.6"), ("0.7", "1.7", "0.6", "0.6")), (("1.0", "0.7", "1.6", "0.2"), ("1.3", "0.9", "0.4", "0.2")),
+                                                       (("0.9", "1.0", "0.6", "1.4"), ("1.35", "1.2", "0.3", "0.2")), (("1.0", "1.0", "0.6", "0.6"), ("0.55", "1.0", "0.3", "0.2"))]:
+                t, b = [Fr(v) for v in (tx, ty, tw, th)], [Fr(v) for v in (bx, by, bw, bh)]
+                exact = (t[1] + t[3] / 2 == b[1] - b[3] / 2) or (t[0] + t[2] / 2 == b[0] - b[2] / 2) or (t[0] - t[2] / 2 == b[0] + b[2] / 2)
+                assert exact, "harness: the branch must abut the trunk in exact arithmetic"
+                for flip in (False, True):
+                    doc = {"Modules": {"M": dict({"hard": True, "rectangles": [[float(v) for v in (tx, ty, tw, th)], [float(v) for v in (bx, by, bw, bh)]]},
+                                                 **({"flip": True} if flip else {})), "P": {"area": 0.5, "center": [0.5, 1.9]}}, "Nets": [["M", "P"]]}
+                    try:
+                        n2 = Netlist(write_yaml(doc))
+                        res.append(("accepted", [r.location.name for r in n2.get_module("M").rectangles], r9(n2.get_module("M").area())))
+                    except AssertionError:
+                        res.append("rejected")
+            out["netlists"] = res
+            dies = []
+            for sp in [{"width": 1, "height": 1, "regions": [[0.15, 0.5, 0.3, 1, "A"], [0.45, 0.5, 0.3, 1, "B"]]},
+                       {"width": 1.9, "height": 1.3, "regions": [[0.35, 0.65, 0.7, 1.3, "A"], [1.3, 0.35, 1.2, 0.7, "#"], [1.0, 1.0, 0.6, 0.6, "B"]]}]:
+                try:
+                    d2 = Die(write_yaml(sp))
+                    key = lambda rs: sorted((r9(r.center.x), r9(r.center.y), r9(r.shape.w), r9(r.shape.h), r.region) for r in rs)  # noqa
+                    dies.append(("accepted", key(d2.ground_regions), key(d2.specialized_regions), key(d2.blockages)))
+                except AssertionError:
+                    dies.append("rejected")
+            out["dies"] = dies
         elif name == "die":
             n = Netlist(write_yaml(netlist_doc(s, 3, 2)))
             spec = {"width": 20 * s, "height": 14 * s, "regions": [[2 * s, 12 * s, 4 * s, 4 * s, "#"], [15 * s, 3 * s, 6 * s, 2 * s, "DSP"]]}
@@ -294,6 +335,9 @@ def main():
     if hist.startswith("sib"):          # a random history followed by a sibling of the probe's own design
         history(int(hist[3:]))
         sibling(name, scale, int(hist[3:]))
+    elif hist.startswith("def:"):       # def:<operation>:<exponent>[:seed]  -- the first operation of the history is <operation> at scale 10^<exponent>
+        parts = hist.split(":")
+        history(int(parts[3]) if len(parts) > 3 else 7, first=(parts[1], 10.0 ** float(parts[2])))
     elif hist != "none":
         history(int(hist))
     res = probe(name, scale)
